@@ -9,107 +9,6 @@ Proof.
   split; [intros [-> ->]; reflexivity | intros H; injection H; auto].
 Qed.
 
-(* no exception stands for a success *)
-Lemma outcome_of_no_success p e :
-  forallb (fun co => negb (outcome_eqb (snd co) OSuccess)) (p_handlers p) = true -> outcome_of p e <> OSuccess.
-Proof.
-  intros W. unfold outcome_of, user_claim. destruct (find _ (p_handlers p)) as [co|] eqn:F.
-  - apply find_some in F. destruct F as [Hin _]. rewrite forallb_forall in W. specialize (W co Hin).
-    intros E. rewrite E in W. discriminate.
-  - unfold standard_outcome. repeat (match goal with |- context [if ?c then _ else _] => destruct c end); discriminate.
-Qed.
-
-Lemma outs_of_calls t : outs_of t = outs_of (calls t).
-Proof. induction t as [|e r IH]; simpl; [reflexivity|]. destruct e; simpl; rewrite ?IH; reflexivity. Qed.
-
-(* what the model observes *)
-Lemma model_obs i :
-  exists o, fst (verdict (i_prog i) false) = Some o
-            /\ model i = {| o_outs := [o]; o_ok := negb (unsuccessful o) |}.
-Proof.
-  unfold model. destruct (run_bracket (i_prog i) []) as (s & o & d & R & V & C & _ & _).
-  exists o. split; [exact V|]. rewrite R, outs_of_calls, C. cbn [outs_of flat_map calls app].
-  unfold was_successful. simpl. rewrite orb_false_r. reflexivity.
-Qed.
-
-Lemma raised_collected p : skipped p = false -> collected p false = raised p.
-Proof. intros S. pose proof (collected_run_raised p) as H. unfold collected_run in H. now rewrite S in H. Qed.
-Lemma raised_skipped p : skipped p = true -> raised p = [].
-Proof. intros S. unfold raised, raised_by_user, forced_failure. now rewrite S. Qed.
-
-(* the verdict in terms of the exceptions raised *)
-Lemma verdict_cases p :
-  skipped p = false ->
-  match raised p with
-  | [] => fst (verdict p false) = Some OSuccess
-  | _ => match find (fun e => negb (claimed p e)) (raised p) with
-         | Some _ => fst (verdict p false) = Some OErr
-         | None => fst (verdict p false) = Some (outcome_of p (last (raised p) (Exc CFail None)))
-         end
-  end.
-Proof.
-  intros S. unfold verdict. rewrite S, (raised_collected p S).
-  destruct (raised p) as [|x r] eqn:E; [reflexivity|].
-  rewrite <- (find_ext' _ _ (x :: r) (fun e => f_equal negb (claims_handlers p e))).
-  destruct (find _ (x :: r)) as [e|] eqn:F.
-  - rewrite (decide_unclaimed _ _ _ F). exact table_last_resort.
-  - destruct (decide_claimed (handlers p) (x :: r)) as (h & L & D); [discriminate | exact F|].
-    rewrite D. cbn [fst]. pose proof (lookup_handlers p (last (x :: r) (Exc CFail None))) as LH.
-    rewrite L in LH. exact LH.
-Qed.
-
-Lemma raised_nil p : raised p = [] -> raised_by_user p = [] /\ (skipped p = false -> forced p = false).
-Proof.
-  unfold raised, forced_failure. intros H. apply app_eq_nil in H. destruct H as [H1 H2]. split; [exact H1|].
-  intros S. rewrite S in H2. cbn [negb andb] in H2.
-  destruct (setup_returns p) eqn:R.
-  - destruct (forced p); [discriminate | reflexivity].
-  - exfalso. unfold raised_by_user in H1. rewrite S in H1. unfold setup_returns in R.
-    destruct (setup_raise p) as [e|]; [|discriminate]. cbn [caught] in H1.
-    apply app_eq_nil in H1. destruct H1 as [H1 _]. exact (flatten_nonempty e H1).
-Qed.
-
-Theorem model_meets_spec i : wf i = true -> finding_F2 i = false -> spec_okb i (model i) = true.
-Proof.
-  intros W NF. unfold wf in W. apply andb_true_iff in W as [_ Wh].
-  destruct (model_obs i) as (o & V & ->). unfold spec_okb. cbn [o_outs o_ok].
-  destruct (skipped (i_prog i)) eqn:S.
-  - (* skip-decorated *)
-    unfold verdict in V. rewrite S in V. injection V as <-.
-    unfold success_okb, single_okb, no_downgrade_okb. rewrite (raised_skipped _ S). reflexivity.
-  - pose proof (verdict_cases (i_prog i) S) as VC. rewrite V in VC.
-    apply andb_true_iff; split; [apply andb_true_iff; split|].
-    + (* success only if nothing raised *)
-      unfold success_okb. destruct o; try reflexivity.
-      destruct (raised (i_prog i)) as [|x r] eqn:E.
-      * destruct (raised_nil _ E) as [H1 H2]. rewrite H1, (H2 S). reflexivity.
-      * exfalso. destruct (find _ (x :: r)); [discriminate|].
-        injection VC as VC. exact (outcome_of_no_success _ _ Wh (eq_sym VC)).
-    + (* a single exception maps to its outcome *)
-      unfold single_okb. destruct (raised (i_prog i)) as [|x [|y r]] eqn:E; try reflexivity.
-      cbn [find last] in VC. apply outcome_eqb_spec.
-      destruct (claimed (i_prog i) x) eqn:C; cbn [negb] in VC.
-      * now injection VC.
-      * injection VC as ->. unfold claimed in C. unfold outcome_of.
-        destruct (user_claim (i_prog i) x); [discriminate|].
-        unfold standard_outcome.
-        assert (N : forall d, subclass d CException = true -> subclass (cls_of x) d = false).
-        { intros d Hd. destruct (subclass (cls_of x) d) eqn:Sd; [|reflexivity].
-          unfold isinstance in C. rewrite (subclass_trans _ _ _ Sd Hd) in C. discriminate. }
-        rewrite !N by reflexivity. reflexivity.
-    + (* no downgrade, outside F2 *)
-      unfold no_downgrade_okb. unfold finding_F2 in NF.
-      destruct (existsb (is_failure_or_error (i_prog i)) (raised (i_prog i))) eqn:Ex; [|reflexivity].
-      cbn [andb] in NF. rewrite negb_involutive, andb_diag.
-      destruct (raised (i_prog i)) as [|x r] eqn:E; [discriminate|].
-      destruct (find (fun e => negb (claimed (i_prog i) e)) (x :: r)) as [e|] eqn:F.
-      * injection VC as ->. reflexivity.
-      * injection VC as ->.
-        assert (All : forallb (claimed (i_prog i)) (x :: r) = true).
-        { apply forallb_forall. intros y Hy. pose proof (find_none _ _ F y Hy) as N. now apply negb_false_iff in N. }
-        rewrite All in NF. cbn [andb] in NF. now apply negb_false_iff in NF.
-Qed.
-
 Theorem spec_okb_sound i o : spec_okb i o = true -> Spec i o.
 Proof.
   unfold spec_okb, Spec. destruct (o_outs o) as [|k [|k' r]]; try discriminate.
@@ -124,15 +23,99 @@ Proof.
     rewrite Ex in H3. apply andb_true_iff in H3 as [A B]. split; [exact A | now apply negb_true_iff in B].
 Qed.
 
-(* an exception no handler is responsible for stands for an error *)
-Lemma unclaimed_is_error p e : claimed p e = false -> outcome_of p e = OErr.
+(* ------------------------------------------------------------------ *)
+(* the model meets the statement                                        *)
+(* ------------------------------------------------------------------ *)
+From TT Require Import Proof.RunExtra Proof.RunTable Proof.RunVerdict.
+
+Definition handlers_not_success (p : prog) : bool :=
+  forallb (fun co => negb (outcome_eqb (snd co) OSuccess)) (user_handlers p).
+
+(* no exception stands for a success *)
+Lemma outcome_of_no_success p e : handlers_not_success p = true -> outcome_of p e <> OSuccess.
 Proof.
-  unfold claimed, outcome_of. destruct (user_claim p e); [discriminate|]. intros C.
-  unfold standard_outcome.
-  assert (N : forall d, subclass d CException = true -> subclass (cls_of e) d = false).
-  { intros d Hd. destruct (subclass (cls_of e) d) eqn:Sd; [|reflexivity].
-    unfold isinstance in C. rewrite (subclass_trans _ _ _ Sd Hd) in C. discriminate. }
-  rewrite !N by reflexivity. reflexivity.
+  intros W. unfold outcome_of, user_claim. destruct (find _ (user_handlers p)) as [co|] eqn:F.
+  - apply find_some in F. destruct F as [Hin _]. unfold handlers_not_success in W.
+    rewrite forallb_forall in W. specialize (W co Hin). intros E. rewrite E in W. discriminate.
+  - unfold standard_outcome. repeat (match goal with |- context [if ?c then _ else _] => destruct c end); discriminate.
+Qed.
+
+Lemma outs_of_calls t : outs_of t = outs_of (calls t).
+Proof. induction t as [|e r IH]; simpl; [reflexivity|]. destruct e; simpl; rewrite ?IH; reflexivity. Qed.
+
+(* what the model observes: one outcome, the one of the verdict *)
+Lemma model_obs i :
+  model i = {| o_outs := [fst (verdict_of (i_prog i))]; o_ok := negb (unsuccessful (fst (verdict_of (i_prog i)))) |}.
+Proof.
+  unfold model. destruct (run_verdict (i_prog i) []) as (s & d & R & C & _).
+  rewrite R, outs_of_calls, C. cbn [outs_of flat_map calls app].
+  unfold was_successful. simpl. rewrite orb_false_r. reflexivity.
+Qed.
+
+(* the verdict in terms of the exceptions raised *)
+Lemma verdict_cases p :
+  skipped p = false ->
+  match raised p with
+  | [] => fst (verdict_of p) = OSuccess
+  | _ => match find (fun e => negb (claimed p e)) (raised p) with
+         | Some _ => fst (verdict_of p) = OErr
+         | None => fst (verdict_of p) = outcome_of p (last (raised p) (Exc CFail None))
+         end
+  end.
+Proof.
+  intros S. unfold verdict_of, decide_u. rewrite S.
+  change (fun e => negb (uclaimed (user_handlers p) e)) with (fun e => negb (claimed p e)).
+  destruct (raised p) as [|x r]; [reflexivity|].
+  destruct (find (fun e => negb (claimed p e)) (x :: r)); reflexivity.
+Qed.
+
+Lemma raised_nil p : raised p = [] -> raised_by_user p = [] /\ (skipped p = false -> forced p = false).
+Proof.
+  unfold raised, forced_failure. intros H. apply app_eq_nil in H. destruct H as [H1 H2]. split; [exact H1|].
+  intros S. rewrite S in H2. cbn [negb andb] in H2.
+  destruct (setup_returns p) eqn:R.
+  - destruct (forced p); [discriminate | reflexivity].
+  - exfalso. unfold raised_by_user in H1. rewrite S in H1. unfold setup_returns in R.
+    destruct (setup_raise p) as [e|]; [|discriminate]. cbn [caught] in H1.
+    apply app_eq_nil in H1. destruct H1 as [H1 _]. exact (flatten_nonempty e H1).
+Qed.
+
+(* an exception no handler is responsible for stands for an error *)
+Lemma unclaimed_is_error' p e : claimed p e = false -> outcome_of p e = OErr.
+Proof. exact (unclaimed_is_error (user_handlers p) e). Qed.
+
+Theorem model_meets_spec i : wf i = true -> finding_F2 i = false -> spec_okb i (model i) = true.
+Proof.
+  intros W NF. unfold wf in W. apply andb_true_iff in W as [_ Wh]. fold (handlers_not_success (i_prog i)) in Wh.
+  rewrite model_obs. unfold spec_okb. cbn [o_outs o_ok]. set (o := fst (verdict_of (i_prog i))).
+  destruct (skipped (i_prog i)) eqn:S.
+  - (* skip-decorated *)
+    assert (o = OSkip) as -> by (subst o; unfold verdict_of; now rewrite S).
+    unfold success_okb, single_okb, no_downgrade_okb. rewrite (raised_skipped _ S). reflexivity.
+  - pose proof (verdict_cases (i_prog i) S) as VC. fold o in VC.
+    apply andb_true_iff; split; [apply andb_true_iff; split|].
+    + (* success only if nothing raised *)
+      unfold success_okb. destruct o eqn:Eo; try reflexivity.
+      destruct (raised (i_prog i)) as [|x r] eqn:E.
+      * destruct (raised_nil _ E) as [H1 H2]. rewrite H1, (H2 S). reflexivity.
+      * exfalso. destruct (find _ (x :: r)); [discriminate|].
+        exact (outcome_of_no_success _ _ Wh (eq_sym VC)).
+    + (* a single exception maps to its outcome *)
+      unfold single_okb. destruct (raised (i_prog i)) as [|x [|y r]] eqn:E; try reflexivity.
+      cbn [find last] in VC. apply outcome_eqb_spec.
+      destruct (claimed (i_prog i) x) eqn:C; cbn [negb] in VC; [exact VC|].
+      rewrite VC. symmetry. now apply unclaimed_is_error'.
+    + (* no downgrade, outside F2 *)
+      unfold no_downgrade_okb. unfold finding_F2 in NF.
+      destruct (existsb (is_failure_or_error (i_prog i)) (raised (i_prog i))) eqn:Ex; [|reflexivity].
+      cbn [andb] in NF. rewrite negb_involutive, andb_diag.
+      destruct (raised (i_prog i)) as [|x r] eqn:E; [discriminate|].
+      destruct (find (fun e => negb (claimed (i_prog i) e)) (x :: r)) as [e|] eqn:F.
+      * rewrite VC. reflexivity.
+      * rewrite VC.
+        assert (All : forallb (claimed (i_prog i)) (x :: r) = true).
+        { apply forallb_forall. intros y Hy. pose proof (find_none _ _ F y Hy) as N. now apply negb_false_iff in N. }
+        rewrite All in NF. cbn [andb] in NF. now apply negb_false_iff in NF.
 Qed.
 
 (* C03_success_iff, both directions (the converse needs the test not to be skip-decorated) *)
@@ -140,31 +123,51 @@ Theorem success_iff i :
   wf i = true -> skipped (i_prog i) = false ->
   (o_outs (model i) = [OSuccess] <-> raised_by_user (i_prog i) = [] /\ forced (i_prog i) = false).
 Proof.
-  intros W S. unfold wf in W. apply andb_true_iff in W as [_ Wh].
-  destruct (model_obs i) as (o & V & ->). cbn [o_outs].
-  pose proof (verdict_cases (i_prog i) S) as VC. rewrite V in VC. split.
-  - intros H. injection H as ->.
+  intros W S. unfold wf in W. apply andb_true_iff in W as [_ Wh]. fold (handlers_not_success (i_prog i)) in Wh.
+  rewrite model_obs. cbn [o_outs].
+  pose proof (verdict_cases (i_prog i) S) as VC. split.
+  - intros H. injection H as H. rewrite H in VC.
     destruct (raised (i_prog i)) as [|x r] eqn:E.
     + destruct (raised_nil _ E) as [H1 H2]. split; [exact H1 | exact (H2 S)].
     + exfalso. destruct (find _ (x :: r)); [discriminate|].
-      injection VC as VC. exact (outcome_of_no_success _ _ Wh (eq_sym VC)).
+      exact (outcome_of_no_success _ _ Wh (eq_sym VC)).
   - intros [H1 H2]. assert (E : raised (i_prog i) = []).
     { unfold raised, forced_failure. rewrite H1, H2, andb_false_r. reflexivity. }
-    rewrite E in VC. injection VC as ->. reflexivity.
+    rewrite E in VC. now rewrite VC.
 Qed.
 
 (* C03_single *)
 Theorem single_mapping i e :
   raised (i_prog i) = [e] -> o_outs (model i) = [outcome_of (i_prog i) e].
 Proof.
-  intros E. destruct (model_obs i) as (o & V & ->). cbn [o_outs].
+  intros E. rewrite model_obs. cbn [o_outs].
   assert (S : skipped (i_prog i) = false).
   { destruct (skipped (i_prog i)) eqn:S; [|reflexivity]. rewrite (raised_skipped _ S) in E. discriminate. }
-  pose proof (verdict_cases (i_prog i) S) as VC. rewrite V, E in VC. cbn [find last] in VC.
-  destruct (claimed (i_prog i) e) eqn:C; cbn [negb] in VC.
-  - injection VC as ->. reflexivity.
-  - injection VC as ->. now rewrite (unclaimed_is_error _ _ C).
+  pose proof (verdict_cases (i_prog i) S) as VC. rewrite E in VC. cbn [find last] in VC.
+  destruct (claimed (i_prog i) e) eqn:C; cbn [negb] in VC; rewrite VC; [reflexivity|].
+  now rewrite (unclaimed_is_error' _ _ C).
 Qed.
+
+(* the handler that decides for an exception: inserted handlers first, the latest insertion first,
+   in list order; subclasses are instances; otherwise the standard mapping by class *)
+Theorem dispatch_order p e :
+  outcome_of p e = match find (fun co => isinstance e (fst co)) (rev (inserted p) ++ p_handlers p) with
+                   | Some co => snd co
+                   | None => standard_outcome (cls_of e)
+                   end.
+Proof. reflexivity. Qed.
+
+(* in every run: the outcome is the one of the exception reported for (Spec.Run.reported) *)
+Theorem outcome_reported i :
+  skipped (i_prog i) = false ->
+  o_outs (model i) = [match reported (i_prog i) with Some e => outcome_of (i_prog i) e | None => OSuccess end].
+Proof.
+  intros S. rewrite model_obs. cbn [o_outs]. rewrite (verdict_of_reported _ S).
+  destruct (reported (i_prog i)); reflexivity.
+Qed.
+Theorem outcome_skip_decorated i :
+  skipped (i_prog i) = true -> model i = {| o_outs := [OSkip]; o_ok := true |}.
+Proof. intros S. rewrite model_obs. unfold verdict_of. rewrite S. reflexivity. Qed.
 
 (* C03_no_downgrade_partial: outside F2 a failure or error is never downgraded *)
 Theorem no_downgrade_partial i e :
@@ -172,18 +175,18 @@ Theorem no_downgrade_partial i e :
   In e (raised (i_prog i)) -> is_failure_or_error (i_prog i) e = true ->
   exists o, model i = {| o_outs := [o]; o_ok := false |} /\ unsuccessful o = true.
 Proof.
-  intros NF Hin He. destruct (model_obs i) as (o & V & ->). exists o.
+  intros NF Hin He. rewrite model_obs. set (o := fst (verdict_of (i_prog i))). exists o.
   assert (S : skipped (i_prog i) = false).
   { destruct (skipped (i_prog i)) eqn:S; [|reflexivity]. rewrite (raised_skipped _ S) in Hin. contradiction. }
-  pose proof (verdict_cases (i_prog i) S) as VC. rewrite V in VC.
+  pose proof (verdict_cases (i_prog i) S) as VC. fold o in VC.
   assert (Ex : existsb (is_failure_or_error (i_prog i)) (raised (i_prog i)) = true)
     by (apply existsb_exists; exists e; split; assumption).
   unfold finding_F2 in NF. rewrite Ex in NF. cbn [andb] in NF.
   assert (U : unsuccessful o = true).
   { destruct (raised (i_prog i)) as [|x r] eqn:E; [contradiction|].
     destruct (find (fun e => negb (claimed (i_prog i) e)) (x :: r)) as [e'|] eqn:F.
-    - injection VC as ->. reflexivity.
-    - injection VC as ->.
+    - rewrite VC. reflexivity.
+    - rewrite VC.
       assert (All : forallb (claimed (i_prog i)) (x :: r) = true).
       { apply forallb_forall. intros y Hy. pose proof (find_none _ _ F y Hy) as N. now apply negb_false_iff in N. }
       rewrite All in NF. cbn [andb] in NF. now apply negb_false_iff in NF. }
@@ -194,15 +197,37 @@ Qed.
 Theorem downgrade_inside_F2 i :
   finding_F2 i = true -> spec_okb i (model i) = false.
 Proof.
-  intros F2. destruct (model_obs i) as (o & V & ->). unfold spec_okb. cbn [o_outs o_ok].
+  intros F2. rewrite model_obs. unfold spec_okb. cbn [o_outs o_ok]. set (o := fst (verdict_of (i_prog i))).
   unfold finding_F2 in F2. apply andb_true_iff in F2 as [F2 Hl]. apply andb_true_iff in F2 as [Ex All].
   assert (S : skipped (i_prog i) = false).
   { destruct (skipped (i_prog i)) eqn:S; [|reflexivity]. rewrite (raised_skipped _ S) in Ex. discriminate. }
-  pose proof (verdict_cases (i_prog i) S) as VC. rewrite V in VC.
+  pose proof (verdict_cases (i_prog i) S) as VC. fold o in VC.
   destruct (raised (i_prog i)) as [|x r] eqn:E; [discriminate|].
   assert (F : find (fun e => negb (claimed (i_prog i) e)) (x :: r) = None).
   { destruct (find _ (x :: r)) as [e|] eqn:F; [|reflexivity]. apply find_some in F. destruct F as [Hin Hb].
     rewrite forallb_forall in All. rewrite (All e Hin) in Hb. discriminate. }
-  rewrite F in VC. set (lst := last (x :: r) (Exc CFail None)) in *. injection VC as ->.
-  unfold no_downgrade_okb. rewrite E, Ex. apply negb_true_iff in Hl. rewrite Hl. cbn [andb]. apply andb_false_r.
+  rewrite F in VC.
+  unfold no_downgrade_okb. rewrite E, Ex. apply negb_true_iff in Hl. rewrite VC, Hl. cbn [andb]. apply andb_false_r.
 Qed.
+
+(* the witness of F2: AssertionError in the test, SkipTest in a cleanup -> addSkip, wasSuccessful() *)
+Definition F2_witness : input :=
+  {| i_prog := {| p_skip := None; p_xfail := false;
+                  p_setup := (1, [ACleanup 10 [ARaise (Exc CSkip (Some 1))]]); p_up_setup := true;
+                  p_body := (2, [ARaise (Exc CFail (Some 1))]);
+                  p_teardown := (3, []); p_up_teardown := true; p_handlers := [] |} |}.
+Theorem refuted_F2 :
+  exists i, wf i = true /\ finding_F2 i = true /\ spec_okb i (model i) = false
+            /\ model i = {| o_outs := [OSkip]; o_ok := true |}.
+Proof. exists F2_witness. vm_compute. repeat split. Qed.
+
+Theorem model_meets_Spec i : wf i = true -> finding_F2 i = false -> Spec i (model i).
+Proof. intros W NF. exact (spec_okb_sound i (model i) (model_meets_spec i W NF)). Qed.
+
+(* the facts about TestCase.exception_handlers of the tree under test that the proofs use *)
+Lemma table_facts :
+  last_resort = Some OErr
+  /\ (forall c, table_outcome c = Some (standard_outcome c))
+  /\ match rev generated_handlers with h :: _ => cls_eqb (h_cls h) CException | [] => false end = true
+  /\ forallb (fun h => subclass (h_cls h) CException) generated_handlers = true.
+Proof. exact (conj table_last_resort (conj table_outcome_spec (conj table_catch_all_last table_within_Exception))). Qed.
